@@ -22,6 +22,14 @@ def configs(tier, seed, salt):
         {"dw": 8, "aw": 3, "align": 0, "ov": None, "regs": []},
         {"dw": 8, "aw": 5, "align": 0, "ov": 0, "regs": [[16, "rw", 0, None], [16, "rw", 2, None], [32, "rw", 4, None]]},     # aligned: limit 0 is satisfiable
     ]
+    # registers spanning a NON-power-of-two number of chunks at starts where the shadow offsets wrap around
+    # (offset < start, start not a multiple of the rounded size): the shapes csr.EventMonitor produces
+    for dw_, start, chunks in [(8, 3, 3), (8, 5, 3), (8, 6, 3), (8, 7, 3), (8, 3, 5), (8, 9, 6), (8, 5, 7), (16, 3, 3), (8, 13, 3)]:
+        w = dw_ * chunks - 3
+        cfgs.append({"dw": dw_, "aw": 5, "align": 0, "ov": None,
+                     "regs": [[dw_ * start if start <= 4 else dw_, "rw", 0, None], [w, "rw", start, None], [8, "r", start + chunks + 1, None]]})
+        cfgs.append({"dw": dw_, "aw": 5, "align": 0, "ov": 1,
+                     "regs": [[w, "rw", 0, None], [w, "rw", chunks, None], [w, "r", 2 * chunks, None]]})
     for c in list(cfgs):
         for ov in (None, 0, 1, 2):
             if c["regs"] and ov != c["ov"] and rng.random() < (0.5 if tier == "quick" else 1.0):
